@@ -114,7 +114,7 @@ if exe:
                 if f.read() != c.data:
                     ck.violation('rejected FILE operand was modified',
                                  {'case': c.name, 'operand_name': name})
-        if len(samples) < 8 and len(c.data) < 120 and i % 23 == 0:
+        if len(samples) < 8 and len(c.data) < 400 and i % 7 == 0:
             samples.append({'case': c.name, 'tag': c.tag, 'oracle': c.why,
                             'result': r.code(),
                             'stderr': r.err[:90].decode('latin1'),
